@@ -1,26 +1,91 @@
-/* C20: the position -> value lambdas of percentile / percentile_sorted and the median wrappers */
+/* C20: the position -> value lambdas of percentile / percentile_sorted and the median wrappers, against the SORTED-ARRAY
+ * REFERENCE of the property: the k-th order statistic of the list is the ghost `sorted(k)` (invariant under permutation); the
+ * median is sorted((n-1)/2) for odd n and the mean of the two middle ORDER STATISTICS sorted(n/2-1), sorted(n/2) for even n. */
 #include "nv_base.h"
 int64_t nv_n;                                  /* ghost: number of values in [begin, end) */
+double* nv_vb;                                 /* ghost: begin of the list (compared by value only, never dereferenced) */
+int64_t nv_g;                                  /* ghost: an arbitrary position of the list */
+int64_t nv_part;                               /* ghost: k >= 0 when positions [0, k) hold the k smallest values and (k, n) the n-k-1 largest
+                                                * (left behind by std::nth_element(begin, begin + k, end)), else -1 */
 double __CPROVER_uninterpreted_sorted(int64_t);   /* ghost: the k-th smallest of the values (invariant under permutation) */
-/* assumed contract of std::nth_element(first, nth, last): the range is permuted and *nth is the element that would be
- * at that position if the range were sorted */
+#define NV_SORTED(k) __CPROVER_uninterpreted_sorted(k)
+/* "is that element": the same bit pattern (`==` identifies -0.0 with 0.0, the congruence of the uninterpreted + and / does not) */
+union nv_bits { double d; uint64_t u; };
+#define NV_IDENT(a, b) (((union nv_bits){ .d = (a) }).u == ((union nv_bits){ .d = (b) }).u)
+/* ASSUMED contract of std::nth_element(first, nth, last) -- exactly what [alg.nth.element] promises and NOTHING MORE: the range
+ * is permuted; *nth is the element a full sort would put there; every element before nth is <= *nth, every element after it
+ * is >= *nth (stated at the ghost position).  NO order inside the two parts: the left neighbour of nth is NOT known to be the
+ * largest of the left part.  The order statistics `sorted(k)` are those of the whole list, so the first clause is given for
+ * the whole list and (a consequence for sub-ranges) for the left / right part of an earlier partition of the whole list.
+ * (values are not NaN: precondition of std::nth_element, operator< must be a strict weak order) */
 static void nv_nth_element_f64(double* first, double* nth, double* last)
 {
   __CPROVER_assert(__CPROVER_same_object(first, nth) && __CPROVER_same_object(first, last) && first <= nth && nth < last, "std::nth_element: nth inside [first, last)");
+  __CPROVER_assert(__CPROVER_same_object(first, nv_vb) && nv_vb <= first && last <= nv_vb + nv_n, "std::nth_element: a sub-range of the list");
+  int64_t fo = first - nv_vb, lo = last - nv_vb, k = nth - nv_vb;
+  _Bool whole = (fo == 0 && lo == nv_n);
+  _Bool part = (nv_part >= 0 && ((fo == 0 && lo == nv_part) || (fo == nv_part + 1 && lo == nv_n)));
   __CPROVER_havoc_object(first);
-  __CPROVER_assume(*nth == __CPROVER_uninterpreted_sorted(nth - first));   /* values are not NaN (precondition of std::nth_element: strict weak order) */
+  if (whole || part) __CPROVER_assume(*nth == *nth && NV_IDENT(*nth, NV_SORTED(k)));
+  if (fo <= nv_g && nv_g < k) __CPROVER_assume(first[nv_g - fo] <= *nth);
+  if (k < nv_g && nv_g < lo) __CPROVER_assume(first[nv_g - fo] >= *nth);
+  if (whole) nv_part = k; else if (!part) nv_part = -1;
 }
-#define NV_VALUES_OK (1 <= nv_n && nv_n <= 1000000 && __CPROVER_is_fresh(begin, nv_n * sizeof(double)))
+/* ASSUMED contract of std::max_element(first, last), first < last: an element of the range that no element exceeds (at the
+ * ghost position); on the left part of a partition of the whole list at k it is the order statistic k-1 */
+static double* nv_max_element_f64(double* first, double* last)
+{
+  __CPROVER_assert(__CPROVER_same_object(first, last) && first < last, "std::max_element: a non-empty range (the result is dereferenced)");
+  __CPROVER_assert(__CPROVER_same_object(first, nv_vb) && nv_vb <= first && last <= nv_vb + nv_n, "std::max_element: a sub-range of the list");
+  int64_t fo = first - nv_vb, lo = last - nv_vb, idx = nv_nondet_int64_t();
+  __CPROVER_assume(0 <= idx && idx < lo - fo);
+  if (fo <= nv_g && nv_g < lo) __CPROVER_assume(first[nv_g - fo] <= first[idx]);
+  if (nv_part > 0 && fo == 0 && lo == nv_part) __CPROVER_assume(NV_IDENT(first[idx], NV_SORTED(nv_part - 1)));
+  return first + idx;
+}
+#define NV_VALUES_OK (1 <= nv_n && nv_n <= 1000000 && __CPROVER_is_fresh(begin, nv_n * sizeof(double)) && nv_vb == begin && nv_part == -1)
 /* from_position of percentile_sorted: the value stored at that position */
 #define NV_CONTRACT_from_position_sorted \
 __CPROVER_requires(NV_VALUES_OK && 0 <= pos && pos < nv_n) __CPROVER_assigns() \
 __CPROVER_ensures(NV_SAME(__CPROVER_return_value, begin[pos]))
 /* from_position of percentile (unsorted input): the value the sorted list has at that position */
 #define NV_CONTRACT_from_position_unsorted \
-__CPROVER_requires(NV_VALUES_OK && end == begin + nv_n && 0 <= pos && pos < nv_n) __CPROVER_assigns(__CPROVER_object_whole(begin)) \
-__CPROVER_ensures(NV_SAME(__CPROVER_return_value, __CPROVER_uninterpreted_sorted(pos)))
-/* median / median_sorted = the 50th percentile */
-double __CPROVER_uninterpreted_percentile(const double*, const double*, double);
-static double nv_percentile(const double* b, const double* e, double p) { return __CPROVER_uninterpreted_percentile(b, e, p); }
-#define NV_CONTRACT_median_sorted __CPROVER_assigns() __CPROVER_ensures(NV_SAME(__CPROVER_return_value, __CPROVER_uninterpreted_percentile(begin, end, 50.0)))
-#define NV_CONTRACT_median __CPROVER_assigns() __CPROVER_ensures(NV_SAME(__CPROVER_return_value, __CPROVER_uninterpreted_percentile(begin, end, 50.0)))
+__CPROVER_requires(NV_VALUES_OK && end == begin + nv_n && 0 <= pos && pos < nv_n) __CPROVER_assigns(__CPROVER_object_whole(begin), nv_part) \
+__CPROVER_ensures(NV_SAME(__CPROVER_return_value, NV_SORTED(pos)))
+
+/* the 50th percentile as detail::percentile computes it (proved by back end B on every instantiation: clause "p = 50": the
+ * position 50(n-1)/100 is the integer (n-1)/2 for odd n and fractional between n/2-1 and n/2 for even n) from the values F(k)
+ * its from_position operator returns (proved above: F(k) = begin[k] / sorted(k)) */
+#define NV_MEDIAN_OF(F) ((nv_n % 2 == 1) ? F((nv_n - 1) / 2) : NV_FDIV(NV_FADD(F(nv_n / 2 - 1), F(nv_n / 2)), 2.0))
+/* the property's reference, tolerant of the order of the two summands (IEEE + is commutative) */
+#define NV_IS_MEDIAN(r, F) ((nv_n % 2 == 1) ? NV_SAME(r, F((nv_n - 1) / 2)) : \
+  (NV_SAME(r, NV_FDIV(NV_FADD(F(nv_n / 2 - 1), F(nv_n / 2)), 2.0)) || NV_SAME(r, NV_FDIV(NV_FADD(F(nv_n / 2), F(nv_n / 2 - 1)), 2.0))))
+double __CPROVER_uninterpreted_percentile(int64_t, double);      /* (0: stored values, 1: order statistics; percentage) */
+#define NV_STORED(k) nv_vb_cells[k]
+static double nv_percentile_sorted(const double* b, const double* e, double p)
+{
+  __CPROVER_assert(b == nv_vb && e == nv_vb + nv_n, "percentile_sorted: over the whole list");
+  __CPROVER_assert(p >= 0.0 && p <= 100.0, "percentile_sorted: percentage in [0, 100]");
+  const double* nv_vb_cells = b;
+  if (p == 50.0) return NV_MEDIAN_OF(NV_STORED);
+  return __CPROVER_uninterpreted_percentile(0, p);
+}
+static double nv_percentile_unsorted(double* b, double* e, double p)
+{
+  __CPROVER_assert(b == nv_vb && e == nv_vb + nv_n, "percentile: over the whole list");
+  __CPROVER_assert(p >= 0.0 && p <= 100.0, "percentile: percentage in [0, 100]");
+  __CPROVER_havoc_object(b);            /* the list is permuted (std::nth_element) */
+  nv_part = -1;
+  if (p == 50.0) return NV_MEDIAN_OF(NV_SORTED);
+  return __CPROVER_uninterpreted_percentile(1, p);
+}
+/* median_sorted / median: the property's clause "the median equals the value(s) at the middle of the sorted list" */
+#define NV_CONTRACT_median_sorted \
+__CPROVER_requires(1 <= nv_n && nv_n <= 1000000 && __CPROVER_is_fresh(NV_ARG_median_sorted_0, nv_n * sizeof(double)) && nv_vb == NV_ARG_median_sorted_0 && NV_ARG_median_sorted_1 == NV_ARG_median_sorted_0 + nv_n) \
+__CPROVER_assigns() \
+__CPROVER_ensures(NV_IS_MEDIAN(__CPROVER_return_value, NV_MS_CELL))
+#define NV_MS_CELL(k) NV_ARG_median_sorted_0[k]
+#define NV_CONTRACT_median \
+__CPROVER_requires(1 <= nv_n && nv_n <= 1000000 && __CPROVER_is_fresh(NV_ARG_median_0, nv_n * sizeof(double)) && nv_vb == NV_ARG_median_0 && NV_ARG_median_1 == NV_ARG_median_0 + nv_n && nv_part == -1) \
+__CPROVER_assigns(__CPROVER_object_whole(NV_ARG_median_0), nv_part) \
+__CPROVER_ensures(NV_IS_MEDIAN(__CPROVER_return_value, NV_SORTED))
